@@ -586,7 +586,11 @@ impl Builder {
             }
             Kind::MapRef(proj, a) => {
                 let proj = *proj;
-                Handle::I(get(*a).p().map_ref(move |p| if proj == 0 { &p.0 } else { &p.1 }))
+                match get(*a) {
+                    Handle::P(h) => Handle::I(h.map_ref(move |p| if proj == 0 { &p.0 } else { &p.1 })),
+                    // a projection of an integer node is the identity projection (stacked map_refs)
+                    Handle::I(h) => Handle::I(h.map_ref(|x| x)),
+                }
             }
             Kind::DependOn(a, on) => {
                 let ha = get(*a);
